@@ -23,6 +23,15 @@ def items(tier, seed):
                          ('durs', {'values': [0, 1, 2]})]},
         job_open={'forever': [True], 'out': ['raise'], 'dur': ['never']},
         top_open={'timeout': [2, 3]}, pre=True, k=2 if th else 1, bound=3 if th else 2)
+    # a job whose body ends by raising CancelledError of its own accord:
+    # its task is cancelled, not finished, so whatever requires it can never
+    # be started -- the run may end as it likes, but not with success
+    yield from spaces.mk(
+        ['flat123', 'nest22', 'nest21'], force='each_job',
+        fargs={'mods': [('out', 'selfcancel')]},
+        job_open={'dur': [0, 2], 'forever': [True], 'critical': [True]},
+        top_open={'window': [1], 'timeout': [3]},
+        nest_open={'critical': [True]}, k=1, bound=2)
     yield from spaces.mk(
         ['flat5s'], th, force='windows', fargs={'values': [1, 2, 3]},
         job_open={'dur': [0, 2], 'out': ['raise']}, top_open={}, k=1,
